@@ -282,11 +282,17 @@ Definition n_Parent : str := [80;97;114;101;110;116].
 Definition n_Child : str := [67;104;105;108;100].
 Definition graph_F02a : graph := [(n_User, [(false, n_UserGroup)]); (n_UserGroup, [(false, n_User)])].
 Definition graph_F02c : graph := [(n_Parent, [(false, n_Child)]); (n_Child, [(true, n_Parent)])].
+Definition n_Folder : str := [70;111;108;100;101;114].
+Definition n_SharedFolder : str := [83;104;97;114;101;100;70;111;108;100;101;114].
+(* a self-referencing base and a schema derived from it through allOf: no guard fires *)
+Definition graph_selfref : graph :=
+  [(n_SharedFolder, [(true, n_Folder)]); (n_Folder, [(false, n_Folder); (false, n_Folder)])].
 Definition graph_dag : graph := [(n_User, [(false, n_UserGroup)]); (n_UserGroup, []); (n_Child, [(true, n_User)])].
 Lemma graph_guards_examples :
   guard_acyclic graph_F02a = false /\ guard_no_allof_cycle graph_F02a = true /\
   guard_acyclic graph_F02c = false /\ guard_no_allof_cycle graph_F02c = false /\
-  guard_acyclic graph_dag = true /\ guard_no_allof_cycle graph_dag = true.
+  guard_acyclic graph_dag = true /\ guard_no_allof_cycle graph_dag = true /\
+  guard_acyclic graph_selfref = true /\ guard_no_allof_cycle graph_selfref = true.
 Proof. repeat split; vm_compute; reflexivity. Qed.
 
 (* ================================================================================================
